@@ -156,6 +156,8 @@ def shards(tier, seed, scale=1.0):
         out.append({'name': 'path-enum-%d' % s, 'kind': 'path-enum', 'shard': s, 'of': PS, 'budget': pb})
     for s in range(16):
         out.append({'name': 'hyp-%d' % s, 'kind': 'hyp', 'seed': seed * 1000 + s, 'n': max(10, int(hyp_n * scale))})
+    for s in range(2 if tier == 'quick' else 8):
+        out.append({'name': 'fuzz-%d' % s, 'kind': 'fuzz', 'seed': seed * 100 + 50 + s, 'runs': int(fuzz * scale), 'empty_corpus': s % 2 == 1})
     return out
 
 
@@ -169,6 +171,14 @@ def run_shard(desc):
         return run_path_enum(desc)
     if k == 'hyp':
         return run_hyp(desc)
+    if k == 'fuzz':
+        # coverage-guided bytes -> (flags, pattern); the translate-vs-match oracle runs inside the atheris target
+        from . import c10
+        o = c10.run_fuzz(desc, want='mismatch')
+        for i, (sz, b, c) in enumerate(o.violations):
+            c.setdefault('mode', 'fn' if c.get('bucket', ['', 'fn'])[1] == 'fn' else 'gl')
+            c['problem'] = 'translate differs from match (atheris)'
+        return o
     raise HarnessError(k)
 
 
@@ -279,6 +289,10 @@ def run_hyp(desc):
 def replay(case):
     util.clear_caches()
     o = Outcome()
+    if case.get('stream') == 'atheris':
+        fn_names = [n for n in case.get('flags', []) if n in util.FN_FLAGS]
+        problems = differential(case['pattern'], fn_names, case.get('flags', []), [case['name']] if case.get('name') else None)
+        return (not problems), [p_['bucket'] for p_ in problems]
     mode = case['mode']
     asts = None
     if 'ast' in case:
